@@ -1,6 +1,7 @@
 package core
 
 import (
+	"go/constant"
 	"fmt"
 	"go/ast"
 	"go/token"
@@ -597,6 +598,14 @@ func (st *inlineState) substitute(call *ast.CallExpr, cfd *FuncDecl, body *ast.B
 	sig := cfd.Obj.Type().(*types.Signature)
 	try := func(pv *types.Var, arg ast.Expr) {
 		if pv == nil || pv.Name() == "" || pv.Name() == "_" || arg == nil {
+			return
+		}
+		if tv, ok := st.info.Types[ast.Unparen(arg)]; ok && tv.Value != nil {
+			// a constant argument: the parameter, if never written, is that constant
+			if b, isBasic := pv.Type().Underlying().(*types.Basic); isBasic && b.Info()&(types.IsBoolean|types.IsInteger|types.IsString) != 0 && !st.paramWritten(pv, body) {
+				st.replaceUses(reflect.ValueOf(body), pv, ast.Unparen(arg))
+				out[pv] = true
+			}
 			return
 		}
 		id, ok := ast.Unparen(arg).(*ast.Ident)
@@ -1300,6 +1309,26 @@ func (st *inlineState) stmt(s ast.Stmt, depth int) []ast.Stmt {
 		pre := st.hoist(slots, depth)
 		return append(pre, s)
 	case *ast.IfStmt:
+		// `if L && R { B }` (no else) where R calls a helper that can be inlined but is not
+		// evaluated first: `if L { if R { B } }`, so that the call can be expanded in place
+		if be, ok := ast.Unparen(x.Cond).(*ast.BinaryExpr); ok && be.Op == token.LAND && x.Else == nil {
+			inl := false
+			ast.Inspect(be.Y, func(n ast.Node) bool {
+				if _, isLit := n.(*ast.FuncLit); isLit {
+					return false
+				}
+				if call, ok := n.(*ast.CallExpr); ok && st.callee(call, depth) != nil {
+					inl = true
+				}
+				return true
+			})
+			if inl {
+				inner := &ast.IfStmt{If: be.Y.Pos(), Cond: be.Y, Body: x.Body}
+				x.Cond = be.X
+				x.Body = &ast.BlockStmt{Lbrace: x.Body.Lbrace, List: []ast.Stmt{inner}, Rbrace: x.Body.Rbrace}
+				st.changed = true
+			}
+		}
 		var pre []ast.Stmt
 		if x.Init != nil {
 			init := st.stmt(x.Init, depth)
@@ -1506,6 +1535,8 @@ func (st *inlineState) normalise(body *ast.BlockStmt) {
 		}
 	}
 	lists = func(list []ast.Stmt) []ast.Stmt {
+		list = st.foldAddrNil(list)
+		list = st.sinkNilCheck(list)
 		list = st.foldConstruction(list)
 		list = st.duplicateTail(list)
 		var out []ast.Stmt
@@ -1537,6 +1568,9 @@ func (st *inlineState) normalise(body *ast.BlockStmt) {
 			}
 		case *ast.RangeStmt:
 			blk(x.Body)
+			if st.rangeKeyToValue(x) {
+				st.changed = true
+			}
 			if r := st.unrollLiteralRange(x, body); r != nil {
 				st.changed = true
 				return lists(r)
@@ -1751,13 +1785,33 @@ func (st *inlineState) switchToIf(x *ast.SwitchStmt) ast.Stmt {
 // what follows an early exit into the else branch. ok is false when a break of
 // the label remains somewhere it cannot be removed (inside a loop or switch).
 func (st *inlineState) unbreak(list []ast.Stmt, label string) ([]ast.Stmt, bool) {
-	isBreak := func(s ast.Stmt) bool {
+	return st.unexit(list, func(s ast.Stmt) bool {
 		b, ok := s.(*ast.BranchStmt)
 		return ok && b.Tok == token.BREAK && b.Label != nil && b.Label.Name == label
-	}
+	}, true)
+}
+
+// uncontinue does the same for the unlabelled `continue` statements of a loop
+// body: `if c { A; continue }; rest` becomes `if c { A } else { rest }`.
+func (st *inlineState) uncontinue(list []ast.Stmt) ([]ast.Stmt, bool) {
+	return st.unexit(list, func(s ast.Stmt) bool {
+		b, ok := s.(*ast.BranchStmt)
+		return ok && b.Tok == token.CONTINUE && b.Label == nil
+	}, false)
+}
+
+func (st *inlineState) unexit(list []ast.Stmt, isBreak func(ast.Stmt) bool, intoLoops bool) ([]ast.Stmt, bool) {
 	mentions := func(n ast.Node) bool {
 		found := false
 		ast.Inspect(n, func(m ast.Node) bool {
+			switch m.(type) {
+			case *ast.FuncLit:
+				return false
+			case *ast.ForStmt, *ast.RangeStmt:
+				if !intoLoops {
+					return false
+				}
+			}
 			if s, ok := m.(ast.Stmt); ok && isBreak(s) {
 				found = true
 			}
@@ -1980,6 +2034,71 @@ func (st *inlineState) indexToRange(x *ast.ForStmt) ast.Stmt {
 		Body: &ast.BlockStmt{Lbrace: x.Body.Lbrace, List: rest, Rbrace: x.Body.Rbrace}}
 }
 
+// rangeKeyToValue: `for i := range X { v := X[i]; … }` over a slice or array X
+// (a pure path the body does not assign, with i not modified) is
+// `for i, v := range X { … }`.
+func (st *inlineState) rangeKeyToValue(x *ast.RangeStmt) bool {
+	if x.Value != nil || x.Key == nil || x.Tok != token.DEFINE || len(x.Body.List) == 0 {
+		return false
+	}
+	kid, ok := x.Key.(*ast.Ident)
+	if !ok {
+		return false
+	}
+	iv, _ := st.info.Defs[kid].(*types.Var)
+	if iv == nil {
+		return false
+	}
+	switch st.info.TypeOf(x.X).Underlying().(type) {
+	case *types.Slice, *types.Array:
+	default:
+		return false
+	}
+	first, ok := x.Body.List[0].(*ast.AssignStmt)
+	if !ok || first.Tok != token.DEFINE || len(first.Lhs) != 1 || len(first.Rhs) != 1 {
+		return false
+	}
+	ix, ok := ast.Unparen(first.Rhs[0]).(*ast.IndexExpr)
+	if !ok || VarOf(st.info, ix.Index) != iv || types.ExprString(ix.X) != types.ExprString(x.X) {
+		return false
+	}
+	collRoot, collPath := FieldPath(st.info, x.X)
+	if collRoot == nil {
+		return false
+	}
+	bad := false
+	for _, s := range x.Body.List[1:] {
+		ast.Inspect(s, func(n ast.Node) bool {
+			switch y := n.(type) {
+			case *ast.AssignStmt:
+				for _, l := range y.Lhs {
+					if VarOf(st.info, l) == iv {
+						bad = true
+					}
+					if r, pth := FieldPath(st.info, l); r == collRoot && (pth == collPath || strings.HasPrefix(collPath, pth+".") || pth == "") {
+						bad = true
+					}
+				}
+			case *ast.IncDecStmt:
+				if VarOf(st.info, y.X) == iv {
+					bad = true
+				}
+			case *ast.UnaryExpr:
+				if y.Op == token.AND && VarOf(st.info, y.X) == iv {
+					bad = true
+				}
+			}
+			return true
+		})
+	}
+	if bad {
+		return false
+	}
+	x.Value = first.Lhs[0]
+	x.Body.List = x.Body.List[1:]
+	return true
+}
+
 // unrollLiteralRange: `for _, v := range []T{e1, …, en} { body }` (the slice given
 // directly or through a local defined once by that literal), with at most 24
 // elements that are field paths, addresses of field paths or plain variables,
@@ -2081,7 +2200,11 @@ func (st *inlineState) unrollLiteralRange(x *ast.RangeStmt, scope *ast.BlockStmt
 			return true
 		})
 	}
-	for _, s := range x.Body.List {
+	bodyList := x.Body.List
+	if conv, ok := st.uncontinue(bodyList); ok {
+		bodyList = conv
+	}
+	for _, s := range bodyList {
 		scan(s, false)
 	}
 	if bad || st.paramWritten(lv, x.Body) {
@@ -2089,7 +2212,7 @@ func (st *inlineState) unrollLiteralRange(x *ast.RangeStmt, scope *ast.BlockStmt
 	}
 	var out []ast.Stmt
 	for _, e := range lit.Elts {
-		cp := st.cloneNode(x.Body).(*ast.BlockStmt)
+		cp := st.cloneNode(&ast.BlockStmt{Lbrace: x.Body.Lbrace, List: bodyList, Rbrace: x.Body.Rbrace}).(*ast.BlockStmt)
 		if id, ok := ast.Unparen(e).(*ast.Ident); ok {
 			if cv, ok := st.info.Uses[id].(*types.Var); ok {
 				ast.Inspect(cp, func(n ast.Node) bool {
@@ -2102,8 +2225,186 @@ func (st *inlineState) unrollLiteralRange(x *ast.RangeStmt, scope *ast.BlockStmt
 			}
 		} else {
 			st.replaceUses(reflect.ValueOf(cp), lv, e)
+			cp.List = st.foldAddrNil(cp.List)
 		}
 		out = append(out, cp.List...)
+	}
+	return out
+}
+
+// sinkNilCheck: an if / else tree every leaf of which ends by assigning the
+// variable v (or by returning), directly followed by `if v != nil { … }` (no
+// else), is the tree with that check moved to the end of each leaf; there the
+// check disappears after `v = nil` and becomes its body after `v = <a call that
+// always yields a non-nil error>`. This is what the inlined form of
+// `if err := helper(); err != nil { return err }` reduces to: the helper's
+// early error returns become early returns of the caller again.
+func (st *inlineState) sinkNilCheck(list []ast.Stmt) []ast.Stmt {
+	for i := 0; i+1 < len(list); i++ {
+		tree, ok := list[i].(*ast.IfStmt)
+		if !ok || tree.Else == nil {
+			continue
+		}
+		chk, ok := list[i+1].(*ast.IfStmt)
+		if !ok || chk.Init != nil || chk.Else != nil {
+			continue
+		}
+		be, ok := ast.Unparen(chk.Cond).(*ast.BinaryExpr)
+		if !ok || be.Op != token.NEQ {
+			continue
+		}
+		vid, ok := ast.Unparen(be.X).(*ast.Ident)
+		if nid, isId := ast.Unparen(be.Y).(*ast.Ident); !ok || !isId || nid.Name != "nil" {
+			continue
+		}
+		v, _ := st.info.Uses[vid].(*types.Var)
+		if v == nil || v.IsField() {
+			continue
+		}
+		// every leaf ends with an assignment to v or a return
+		var leafOK func(l []ast.Stmt) bool
+		leafOK = func(l []ast.Stmt) bool {
+			if len(l) == 0 {
+				return false
+			}
+			switch x := l[len(l)-1].(type) {
+			case *ast.ReturnStmt:
+				return true
+			case *ast.AssignStmt:
+				if len(x.Lhs) == 1 && len(x.Rhs) == 1 && x.Tok == token.ASSIGN {
+					if id, ok := x.Lhs[0].(*ast.Ident); ok && st.info.Uses[id] == types.Object(v) {
+						return true
+					}
+				}
+			case *ast.IfStmt:
+				if x.Else == nil || !leafOK(x.Body.List) {
+					return false
+				}
+				switch e := x.Else.(type) {
+				case *ast.BlockStmt:
+					return leafOK(e.List)
+				case *ast.IfStmt:
+					return leafOK([]ast.Stmt{e})
+				}
+			case *ast.BlockStmt:
+				return leafOK(x.List)
+			}
+			return false
+		}
+		if !leafOK([]ast.Stmt{tree}) {
+			continue
+		}
+		var sink func(l []ast.Stmt) []ast.Stmt
+		sink = func(l []ast.Stmt) []ast.Stmt {
+			switch x := l[len(l)-1].(type) {
+			case *ast.AssignStmt:
+				rhs := ast.Unparen(x.Rhs[0])
+				if id, ok := rhs.(*ast.Ident); ok && id.Name == "nil" {
+					return l // the check is false here
+				}
+				if call, ok := rhs.(*ast.CallExpr); ok {
+					if fn := Callee(st.info, call); fn != nil && IsErrorConstructor(st.p, fn) {
+						return append(l, st.cloneNode(chk.Body).(*ast.BlockStmt).List...)
+					}
+				}
+				return append(l, st.cloneNode(chk).(ast.Stmt))
+			case *ast.IfStmt:
+				x.Body.List = sink(x.Body.List)
+				switch e := x.Else.(type) {
+				case *ast.BlockStmt:
+					e.List = sink(e.List)
+				case *ast.IfStmt:
+					sink([]ast.Stmt{e})
+				}
+			case *ast.BlockStmt:
+				x.List = sink(x.List)
+			}
+			return l
+		}
+		sink([]ast.Stmt{tree})
+		st.changed = true
+		out := append([]ast.Stmt{}, list[:i+1]...)
+		out = append(out, list[i+2:]...)
+		return st.sinkNilCheck(out)
+	}
+	return list
+}
+
+// constCond evaluates a condition that is constant: true / false / a constant
+// expression, the comparison of an address with nil, and negations of these.
+func (st *inlineState) constCond(c ast.Expr) (val, known bool) {
+	c = ast.Unparen(c)
+	if tv, ok := st.info.Types[c]; ok && tv.Value != nil && tv.Value.Kind() == constant.Bool {
+		return constant.BoolVal(tv.Value), true
+	}
+	switch x := c.(type) {
+	case *ast.Ident:
+		if _, isConst := st.info.Uses[x].(*types.Const); isConst && (x.Name == "true" || x.Name == "false") {
+			return x.Name == "true", true
+		}
+	case *ast.UnaryExpr:
+		if x.Op == token.NOT {
+			v, k := st.constCond(x.X)
+			return !v, k
+		}
+	case *ast.BinaryExpr:
+		if x.Op == token.EQL || x.Op == token.NEQ {
+			a, b := ast.Unparen(x.X), ast.Unparen(x.Y)
+			if id, isId := a.(*ast.Ident); isId && id.Name == "nil" {
+				a, b = b, a
+			}
+			u, isAddr := a.(*ast.UnaryExpr)
+			id, isId := b.(*ast.Ident)
+			if isAddr && u.Op == token.AND && isId && id.Name == "nil" {
+				return x.Op == token.NEQ, true
+			}
+		}
+	}
+	return false, false
+}
+
+// foldAddrNil (foldConstIf) removes if statements whose condition is constant:
+// `if true { A }` is A and `if false { A } else { B }` is B.
+func (st *inlineState) foldAddrNil(list []ast.Stmt) []ast.Stmt {
+	var out []ast.Stmt
+	for _, s := range list {
+		is, ok := s.(*ast.IfStmt)
+		if !ok || is.Init != nil {
+			out = append(out, s)
+			continue
+		}
+		val, known := st.constCond(is.Cond)
+		if !known {
+			out = append(out, s)
+			continue
+		}
+		st.changed = true
+		var taken []ast.Stmt
+		if val {
+			taken = is.Body.List
+		} else {
+			switch e := is.Else.(type) {
+			case *ast.BlockStmt:
+				taken = e.List
+			case *ast.IfStmt:
+				taken = []ast.Stmt{e}
+			}
+		}
+		// the branch's own declarations stay in their block unless it declares nothing
+		declares := false
+		for _, t := range taken {
+			if as, ok := t.(*ast.AssignStmt); ok && as.Tok == token.DEFINE {
+				declares = true
+			}
+			if _, ok := t.(*ast.DeclStmt); ok {
+				declares = true
+			}
+		}
+		if declares {
+			out = append(out, &ast.BlockStmt{Lbrace: is.Pos(), List: st.foldAddrNil(taken), Rbrace: is.End()})
+		} else {
+			out = append(out, st.foldAddrNil(taken)...)
+		}
 	}
 	return out
 }
